@@ -37,7 +37,7 @@ func c30(p *an.Prog, r *an.R, tier string) {
 	r.Rule("C30.R2", "heap discipline: Queue.pq is written only by container/heap (no direct assignment outside pqueue's methods); heap.Fix/Remove(&q.pq, i) only with i == item.heapIdx under item.heapIdx >= 0; heap.Push only under item.heapIdx < 0; pqueue.Swap/Push/Pop store the new position (Pop stores -1)")
 	r.Rule("C30.R3", "every heap.Push is preceded by q.seq++ and item.seq = q.seq and guarded by backoff.Allow")
 	r.Rule("C30.R4", "inside a loop over q.items the entry is identified by the range key or item.repoID (the key it was inserted under), never by item.opts.RepoID")
-	r.Rule("C30.R5", "lessQueueItemPriority compares indexed, then failed, then seq with a strict `<`")
+	r.Rule("C30.R5", "lessQueueItemPriority, evaluated abstractly over all 48 combinations of (x.indexed, y.indexed, x failed, y failed, order of x.seq and y.seq), equals: un-indexed first, then non-failed first, then strictly lower seq")
 	r.Rule("C30.R6", "an assignment to item.indexed/indexState/seq is made either where the item is known to be off the heap or is followed on every on-heap path by heap.Fix/Remove")
 	pk := p.Pkg(isrv)
 	qT := p.Named(isrv, "Queue")
@@ -450,41 +450,235 @@ func c30Less(p *an.Prog, r *an.R) {
 	}
 	r.Fn(an.FuncName(f))
 	info := d.Pkg.TypesInfo
-	// order of first mention of the compared fields, and the final return
-	var order []string
-	seen := map[string]bool{}
-	ast.Inspect(d.Decl.Body, func(nd ast.Node) bool {
-		if se, ok := nd.(*ast.SelectorExpr); ok && info.Selections[se] != nil {
-			n := se.Sel.Name
-			if (n == "indexed" || n == "indexState" || n == "seq") && !seen[n] {
-				seen[n] = true
-				order = append(order, n)
+	// The function only compares: indexed (bool), indexState against the constant
+	// indexStateFail, and seq by order. Evaluate its body abstractly over that
+	// finite domain (2*2*2*2 booleans x 3 orderings of seq = 48 cases) and compare
+	// with the specification: un-indexed first, then non-failed first, then
+	// lower seq (strictly).
+	px, py := an.Param(info, d.Decl, 0), an.Param(info, d.Decl, 1)
+	failC := p.Obj(isrv, "indexStateFail")
+	type world struct {
+		xi, yi, xf, yf bool
+		seq            int // -1: x.seq < y.seq, 0 equal, 1 greater
+	}
+	type val struct {
+		kind string // "bool", "seqx", "seqy", "statex", "statey", "fail"
+		b    bool
+	}
+	errUnsupported := ""
+	var evalExpr func(e ast.Expr, w world, env map[types.Object]val) (val, bool)
+	evalExpr = func(e ast.Expr, w world, env map[types.Object]val) (val, bool) {
+		switch x := ast.Unparen(e).(type) {
+		case *ast.Ident:
+			if v, ok := env[info.ObjectOf(x)]; ok {
+				return v, true
+			}
+			if info.ObjectOf(x) == failC {
+				return val{kind: "fail"}, true
+			}
+			if tv := info.Types[x]; tv.Value != nil && (tv.Value.String() == "true" || tv.Value.String() == "false") {
+				return val{kind: "bool", b: tv.Value.String() == "true"}, true
+			}
+		case *ast.SelectorExpr:
+			isX, isY := isIdentOf(info, x.X, px), isIdentOf(info, x.X, py)
+			if isX || isY {
+				switch x.Sel.Name {
+				case "indexed":
+					if isX {
+						return val{kind: "bool", b: w.xi}, true
+					}
+					return val{kind: "bool", b: w.yi}, true
+				case "indexState":
+					if isX {
+						return val{kind: "statex"}, true
+					}
+					return val{kind: "statey"}, true
+				case "seq":
+					if isX {
+						return val{kind: "seqx"}, true
+					}
+					return val{kind: "seqy"}, true
+				}
+			}
+			if info.ObjectOf(x.Sel) == failC {
+				return val{kind: "fail"}, true
+			}
+		case *ast.UnaryExpr:
+			if x.Op == token.NOT {
+				if v, ok := evalExpr(x.X, w, env); ok && v.kind == "bool" {
+					return val{kind: "bool", b: !v.b}, true
+				}
+			}
+		case *ast.BinaryExpr:
+			a, okA := evalExpr(x.X, w, env)
+			b, okB := evalExpr(x.Y, w, env)
+			if !okA || !okB {
+				break
+			}
+			isFail := func(v val) (bool, bool) {
+				switch v.kind {
+				case "statex":
+					return w.xf, true
+				case "statey":
+					return w.yf, true
+				}
+				return false, false
+			}
+			switch {
+			case a.kind == "bool" && b.kind == "bool":
+				switch x.Op {
+				case token.EQL:
+					return val{kind: "bool", b: a.b == b.b}, true
+				case token.NEQ:
+					return val{kind: "bool", b: a.b != b.b}, true
+				case token.LAND:
+					return val{kind: "bool", b: a.b && b.b}, true
+				case token.LOR:
+					return val{kind: "bool", b: a.b || b.b}, true
+				}
+			case (a.kind == "fail") != (b.kind == "fail"):
+				other := a
+				if a.kind == "fail" {
+					other = b
+				}
+				if fv, ok := isFail(other); ok {
+					switch x.Op {
+					case token.EQL:
+						return val{kind: "bool", b: fv}, true
+					case token.NEQ:
+						return val{kind: "bool", b: !fv}, true
+					}
+				}
+			case (a.kind == "seqx" && b.kind == "seqy") || (a.kind == "seqy" && b.kind == "seqx"):
+				c := w.seq // order of x relative to y
+				if a.kind == "seqy" {
+					c = -c
+				}
+				switch x.Op {
+				case token.LSS:
+					return val{kind: "bool", b: c < 0}, true
+				case token.LEQ:
+					return val{kind: "bool", b: c <= 0}, true
+				case token.GTR:
+					return val{kind: "bool", b: c > 0}, true
+				case token.GEQ:
+					return val{kind: "bool", b: c >= 0}, true
+				case token.EQL:
+					return val{kind: "bool", b: c == 0}, true
+				case token.NEQ:
+					return val{kind: "bool", b: c != 0}, true
+				}
 			}
 		}
-		return true
-	})
-	okOrder := len(order) == 3 && order[0] == "indexed" && order[1] == "indexState" && order[2] == "seq"
-	r.Check(okOrder, "C30.R5", an.FuncName(f)+"/lexicographic-order", d.Decl.Pos(), "compares indexed, then failed, then seq", fmt.Sprintf("the priority comparison looks at the fields in the order %v, not (indexed, indexState, seq)", order))
-	last, _ := d.Decl.Body.List[len(d.Decl.Body.List)-1].(*ast.ReturnStmt)
-	okLast := false
-	if last != nil && len(last.Results) == 1 {
-		if be, ok := ast.Unparen(last.Results[0]).(*ast.BinaryExpr); ok && be.Op == token.LSS {
-			x, okx := ast.Unparen(be.X).(*ast.SelectorExpr)
-			y, oky := ast.Unparen(be.Y).(*ast.SelectorExpr)
-			p0, p1 := an.Param(info, d.Decl, 0), an.Param(info, d.Decl, 1)
-			okLast = okx && oky && x.Sel.Name == "seq" && y.Sel.Name == "seq" && an.UsesObj(info, x.X, p0) && an.UsesObj(info, y.X, p1)
+		errUnsupported = types.ExprString(e)
+		return val{}, false
+	}
+	// statements: returns (result, returned, ok)
+	var evalStmts func(list []ast.Stmt, w world, env map[types.Object]val) (bool, bool, bool)
+	evalStmts = func(list []ast.Stmt, w world, env map[types.Object]val) (bool, bool, bool) {
+		for _, st := range list {
+			switch x := st.(type) {
+			case *ast.ReturnStmt:
+				if len(x.Results) != 1 {
+					return false, false, false
+				}
+				v, ok := evalExpr(x.Results[0], w, env)
+				if !ok || v.kind != "bool" {
+					return false, false, false
+				}
+				return v.b, true, true
+			case *ast.AssignStmt:
+				if len(x.Lhs) != len(x.Rhs) {
+					return false, false, false
+				}
+				vals := make([]val, len(x.Rhs))
+				for i, rh := range x.Rhs {
+					v, ok := evalExpr(rh, w, env)
+					if !ok {
+						return false, false, false
+					}
+					vals[i] = v
+				}
+				for i, lh := range x.Lhs {
+					id, ok := lh.(*ast.Ident)
+					if !ok {
+						return false, false, false
+					}
+					env[info.ObjectOf(id)] = vals[i]
+				}
+			case *ast.IfStmt:
+				if x.Init != nil {
+					if _, _, ok := evalStmts([]ast.Stmt{x.Init}, w, env); !ok {
+						return false, false, false
+					}
+				}
+				c, ok := evalExpr(x.Cond, w, env)
+				if !ok || c.kind != "bool" {
+					return false, false, false
+				}
+				if c.b {
+					if res, ret, ok := evalStmts(x.Body.List, w, env); !ok || ret {
+						return res, ret, ok
+					}
+				} else if x.Else != nil {
+					var body []ast.Stmt
+					switch e := x.Else.(type) {
+					case *ast.BlockStmt:
+						body = e.List
+					default:
+						body = []ast.Stmt{e}
+					}
+					if res, ret, ok := evalStmts(body, w, env); !ok || ret {
+						return res, ret, ok
+					}
+				}
+			case *ast.BlockStmt:
+				if res, ret, ok := evalStmts(x.List, w, env); !ok || ret {
+					return res, ret, ok
+				}
+			default:
+				errUnsupported = fmt.Sprintf("%T", st)
+				return false, false, false
+			}
+		}
+		return false, false, true
+	}
+	cases, wrong := 0, ""
+	decided := true
+	for _, xi := range []bool{false, true} {
+		for _, yi := range []bool{false, true} {
+			for _, xf := range []bool{false, true} {
+				for _, yf := range []bool{false, true} {
+					for _, sq := range []int{-1, 0, 1} {
+						w := world{xi, yi, xf, yf, sq}
+						got, ret, ok := evalStmts(d.Decl.Body.List, w, map[types.Object]val{})
+						if !ok || !ret {
+							decided = false
+							continue
+						}
+						cases++
+						var want bool
+						switch {
+						case xi != yi:
+							want = !xi
+						case xf != yf:
+							want = !xf
+						default:
+							want = sq < 0
+						}
+						if got != want && wrong == "" {
+							wrong = fmt.Sprintf("x{indexed:%v failed:%v} y{indexed:%v failed:%v} seq order %d: less=%v, specification says %v", xi, xf, yi, yf, sq, got, want)
+						}
+					}
+				}
+			}
 		}
 	}
-	r.Check(okLast, "C30.R5", an.FuncName(f)+"/strict-fifo-tiebreak", d.Decl.Pos(), "the final comparison is x.seq < y.seq", "the final tiebreak is not the strict x.seq < y.seq: the order among equal priorities is not first-in first-out (or Less is not a strict order)")
-	// negated-bool returns: `return !x.indexed`, `return !xFail`
-	neg := 0
-	ast.Inspect(d.Decl.Body, func(nd ast.Node) bool {
-		if rs, ok := nd.(*ast.ReturnStmt); ok && len(rs.Results) == 1 {
-			if u, ok := ast.Unparen(rs.Results[0]).(*ast.UnaryExpr); ok && u.Op == token.NOT {
-				neg++
-			}
-		}
-		return true
-	})
-	r.Check(neg == 2, "C30.R5", an.FuncName(f)+"/not-indexed-and-not-failed-first", d.Decl.Pos(), "un-indexed before indexed, non-failed before failed", "the polarity of the indexed/failed comparison changed: up-to-date or failed repositories are yielded first")
+	key := an.FuncName(f) + "/priority-order"
+	if !decided {
+		r.Und("C30.R5", key, d.Decl.Pos(), "the comparison uses a construct outside the comparison-only fragment ("+errUnsupported+"): abstract evaluation over the 48 orderings is not possible")
+		return
+	}
+	r.Extra["C30.R5.cases_evaluated"] = cases
+	r.Check(wrong == "", "C30.R5", key, d.Decl.Pos(), "abstract evaluation over all 48 combinations of (indexed, failed, seq order) agrees with: un-indexed first, then non-failed, then lower seq (strict)", "the priority comparison disagrees with `un-indexed first, then non-failed first, then first-in first-out`: "+wrong)
 }
